@@ -579,16 +579,21 @@ pub fn judge_c01(cfg: &HybCfg, ops: &[HOp], trace: &HTrace) -> C01Judgement {
 /// flusher commits one batch at a time and a key always goes to the same flusher). Read from the device log with the
 /// independent format reader.
 pub fn older_version_written_after_newer(cfg: &HybCfg, trace: &HTrace, generation: u32, key: u64, stale: u64) -> bool {
-    use crate::fmtparse::{WriteKind, classify_write};
     let tomb = if cfg.tombstone { Some(0usize) } else { None };
+    older_written_after_newer_in(trace.log.iter().filter(|(g, _)| *g == generation).map(|(_, r)| r), cfg.blob_index_size, tomb, key, stale)
+}
+
+/// The same condition over any device log (one generation).
+pub fn older_written_after_newer_in<'a>(log: impl Iterator<Item = &'a crate::simdev::LogRec>, index_size: usize, tomb: Option<usize>, key: u64, stale: u64) -> bool {
+    use crate::fmtparse::{WriteKind, classify_write};
     let mut of_stale = vec![];
     let mut of_newer = vec![];
-    for (g, r) in trace.log.iter() {
-        if *g != generation || r.kind != crate::simdev::IoKind::Write {
+    for r in log {
+        if r.kind != crate::simdev::IoKind::Write {
             continue;
         }
         let Some(data) = r.data.as_ref() else { continue };
-        if let WriteKind::Data(entries) = classify_write(r.part, r.offset, data, cfg.blob_index_size, tomb) {
+        if let WriteKind::Data(entries) = classify_write(r.part, r.offset, data, index_size, tomb) {
             for e in entries {
                 if e.key != Some(key) {
                     continue;
@@ -607,7 +612,6 @@ pub fn older_version_written_after_newer(cfg: &HybCfg, trace: &HTrace, generatio
     }
     of_stale.iter().any(|a| of_newer.iter().any(|b| a.completed_clock.unwrap_or(u64::MAX) > b.issued_clock))
 }
-
 
 /// Structural condition of the known finding "cleared entry back after restart": the returned version was written
 /// before a clear() of the cache, that clear is the last thing that happened to the key before the lookup, and the
